@@ -65,11 +65,13 @@ def run_one(item, tier, repo='/repo'):
         return {'id': item['id'], 'property': item['property'], 'status': status, 'rc': r.returncode, 'violations': len(viol), 'first': first,
                 'wall_s': round(time.time() - t0, 1), 'tail': '' if status == 'CAUGHT' else r.stdout[-1500:]}
     finally:
+        import hashlib
+        shutil.rmtree(os.path.join(VERIF, 'build', 'alt-' + hashlib.sha1(os.path.realpath(scratch).encode()).hexdigest()[:10]), ignore_errors=True)
         shutil.rmtree(scratch, ignore_errors=True)
 
 
 def main():
-    ap = argparse.ArgumentParser(); ap.add_argument('--only'); ap.add_argument('--tier', default='quick'); ap.add_argument('--no-record', action='store_true')
+    ap = argparse.ArgumentParser(); ap.add_argument('--only'); ap.add_argument('--tier', default='quick'); ap.add_argument('--no-record', action='store_true'); ap.add_argument('--update', action='store_true', help='with --only: replace the matching entries of RESULTS.json')
     a = ap.parse_args()
     items = collect(a.only); res = []
     for it in items:
@@ -77,6 +79,11 @@ def main():
         print('%-48s %-8s %s %s' % (r['id'], r['status'], r.get('wall_s', ''), r.get('first', r.get('detail', ''))[:160])); sys.stdout.flush()
         if r['status'] != 'CAUGHT':
             print('    ' + r.get('tail', '').replace('\n', '\n    ')[-1200:])
+    if a.update and a.only:
+        rp = os.path.join(VERIF, 'mutants', 'RESULTS.json'); cur = json.load(open(rp))
+        new = {r['id']: {k: v for k, v in r.items() if k != 'tail'} for r in res}
+        cur['results'] = [new.pop(x['id'], x) for x in cur['results']] + list(new.values())
+        json.dump(cur, open(rp, 'w'), indent=1)
     if not a.no_record and not a.only:
         json.dump({'tier': a.tier, 'results': [{k: v for k, v in r.items() if k != 'tail'} for r in res]}, open(os.path.join(VERIF, 'mutants', 'RESULTS.json'), 'w'), indent=1)
     missed = [r for r in res if r['status'] != 'CAUGHT']
